@@ -226,6 +226,14 @@ theorem eos_is_reported (steps : List RStep) (cap : Nat) (hcap : 0 < cap)
     ((Reader.init.run steps).step (.read cap)).eos = (Reader.init.run steps).eos + 1 :=
   reader_reports_eos steps cap hcap hfin hempty
 
+/-- `read_to_end`: the `(offset, chunk)` list of consecutive chunks (any chunking, any start offset) is assembled
+    into exactly the stream bytes. PARTIAL: stated for chunks arriving in offset order; `read_to_end` reads
+    unordered, and the assembly of a permuted chunk list is only exercised by the harness. -/
+theorem read_to_end_assembles_consecutive_chunks_partial (parts : List Bytes) (off : Nat)
+    (hoff : off + parts.flatten.length < 2 ^ 64 - 1) :
+    assemble (withOffsets off parts) = parts.flatten :=
+  assemble_in_order parts off hoff
+
 example :
     let r := Reader.init.run [.deliver [1, 2, 3], .read 2, .deliver [4], .read 8, .read 8, .finish, .read 8, .read 1]
     r.got = [1, 2, 3, 4] ∧ r.eos = 2 ∧ r.pendings = 1 := by decide
